@@ -373,6 +373,13 @@ def gen_cases(props, tier, seed):
     for ex in regress:
         for sd in (3, 4, 8, 1, 2):
             cases.append((ex, 0, 1, sd))
+    # repeated examples (frequencies above 1) of three or more shapes with sampling forced: repeating an example, or
+    # giving the frequencies as a dictionary, must not change which expressions come out
+    for ex in (['ab', '12-34', 'x y z', '12-34', '12-34'], ['12-34', '12-34', 'ab', 'x y z', 'Q7', 'Q7'],
+               ['a1', 'a1', 'a1', 'bb', 'c-d', 'e f']):
+        for si in (1, 2, 3):
+            for sd in (0, 1, 2, 7):
+                cases.append((ex, 0, si, sd))
     # more same-shaped examples than max_strings_in_group (10), the odd one out last / first / in the middle:
     # the order in which they arrive must not matter
     many = ['AB-%d' % i for i in range(1, 12)]
